@@ -137,9 +137,9 @@ func init() {
 	for _, id := range []string{"C07", "C03", "C02"} {
 		extendProp(id, mg, mgF, func(c *Ctx) { defer c.cleanup(); c.scanRun("machine-graph") })
 	}
-	const fsp = "fold-span: in the loops of the PHP 5 grammar that fold a list of links (`->b`, `[0]`, `()`) into an accumulated expression, every step computes the link's span from (accumulated expression, link) and does so before the accumulator is replaced by the link - computed afterwards the span runs from the link to itself and the node does not contain its first child (round 6 seed C05-18; 12 fold steps; no fixture grammar has a fold, the recorded seed is the positive example)."
+	const fsp = "fold-span: in the loops of the PHP 5 grammar that fold a list of links (`->b`, `[0]`, `()`) into an accumulated expression, every step computes the link's span from (accumulated expression, link) and does so before the accumulator is replaced by the link - computed afterwards the span runs from the link to itself and the node does not contain its first child (round 6 seed C05-18; 12 fold steps in 2 actions, followed into functions of the package the actions call; no fixture grammar has a fold, the recorded seed is the positive example)."
 	for _, id := range []string{"C05", "C10"} {
-		extendProp(id, fsp, []report.Floor{{Rule: "fold-span", What: "fold-steps", Min: 10}},
+		extendProp(id, fsp, []report.Floor{{Rule: "fold-span", What: "folding-actions", Min: 2}, {Rule: "fold-span", What: "fold-steps", Min: 4}},
 			func(c *Ctx) { defer c.cleanup(); c.flowRule("fold-span", flowRules["fold-span"]) })
 	}
 	extendProp("C04", "linear and order on both grammars: tokens appear in the tree once and in the slots whose declaration order is source order, so that walking the tree meets them in increasing offset order (round 6 seed C04-18: the loop that nests the `$` of `$$$a` flipped; the outermost node carried the last `$`).",
